@@ -44,6 +44,9 @@ pub fn cv_to_cbor(cv: &CV) -> CBOR {
 /// so that the typed `From<T> for Envelope` paths are exercised, not just `CBOR`.
 pub fn make_leaf_env(cv: &CV, variant: u64) -> Envelope {
     match cv {
+        // arrays of integers / of texts handed over as typed vectors (order and repeats are part of the value)
+        CV::A(items) if variant % 4 == 3 && !items.is_empty() && items.iter().all(|x| matches!(x, CV::U(_))) => Envelope::new(items.iter().map(|x| if let CV::U(n) = x { *n } else { 0 }).collect::<Vec<u64>>()),
+        CV::A(items) if variant % 4 == 3 && !items.is_empty() && items.iter().all(|x| matches!(x, CV::T(_))) => Envelope::new(items.iter().map(|x| if let CV::T(t) = x { t.clone() } else { String::new() }).collect::<Vec<String>>()),
         CV::U(n) if variant % 16 == 6 => Envelope::new_or_null(Some(*n)),
         CV::U(n) if variant % 16 == 14 => Envelope::new_or_none(Some(*n)).unwrap_or_else(Envelope::null),
         CV::S(22) if variant % 4 == 2 => Envelope::new_or_null(None::<u8>),
